@@ -497,7 +497,18 @@ public:
     case listType:
       return other.data->type == listType && *(const List<Variant>*)(data + 1) == *(const List<Variant>*)(other.data + 1);
     case arrayType:
-      return other.data->type == arrayType && *(const Array<Variant>*)(data + 1) == *(const Array<Variant>*)(other.data + 1);
+      {
+        if(other.data->type != arrayType)
+          return false;
+        const Array<Variant>& a = *(const Array<Variant>*)(data + 1);
+        const Array<Variant>& b = *(const Array<Variant>*)(other.data + 1);
+        if(a.size() != b.size())
+          return false;
+        for(const Variant* i = a, * end = i + a.size(), * j = b; i != end; ++i, ++j)
+          if(*i != *j)
+            return false;
+        return true;
+      }
     case stringType:
       if(other.data->type == stringType)
         return *(const String*)(data + 1) == *(const String*)(other.data + 1);
